@@ -124,6 +124,13 @@ def gen_payloads():
         for shape in "elus":
             cases.append("Q %s 1 E0%s,S,Rk,S,C0,E1%s,S,Rk,S,D0,D1" % (cap, shape, "" if shape == "e" else shape))
             cases.append("Q %s 0 E0,E0%s,S,Rk,Re8,S,D0" % (cap, shape))
+    # the SAME text emitted again and again (a counter incremented repeatedly): every outcome next to an identical
+    # neighbour - a panic or a failure on one must not cost the next one
+    for cap in ["4", "u"]:
+        for handler in ("0", "1", "3"):
+            for outs in (["Rk", "Rp", "Rk", "Rk"], ["Rp", "Rp", "Rk", "Rk"], ["Re8", "Rk", "Rp", "Rk"], ["Rk", "Rk", "Rp", "Re5"]):
+                cases.append("Q %s %s %s" % (cap, handler, ",".join(["E0d"] * 4 + outs + ["S", "E0d", "Rk", "S", "D0"])))
+            cases.append("Q %s %s %s" % (cap, handler, ",".join(["E0d", "Rp", "E0d", "Rk", "E0d", "Rp", "E0d", "E0d", "Rk", "Rk", "S", "D0"])))
     return cases
 
 
@@ -312,7 +319,7 @@ def as_plain_drop(case):
     if t[0] == "Q":
         t[2] = {"2": "1", "3": "0"}.get(t[2], t[2])        # how the sink was constructed: with or without a handler
         t[3] = re.sub(r"U(\d+)", r"D\1", t[3])
-        t[3] = re.sub(r"E(\d+)[elus]", r"E\1", t[3])      # the payload's shape is nothing to the model or the clauses
+        t[3] = re.sub(r"E(\d+)[elusd]", r"E\1", t[3])      # the payload's shape is nothing to the model or the clauses
         t[3] = re.sub(r"\bRz\b", "Rk", t[3])             # accepted is accepted, whatever count the wrapped sink answers
         t[3] = re.sub(r"\bRn\d+\b", "Rk", t[3])
         t[3] = re.sub(r"\bRo(\d+)\b", lambda m: "Re%d" % (2000 + int(m.group(1))), t[3])   # an OS error is an error
@@ -527,13 +534,17 @@ def run_queue_check(prop, tier, seed):
     if prop == "C10":
         # the bound holds for large capacities too (the model's capacity is any number; the scripted histories use small
         # ones): the worker is parked with one metric, then capacity + 16 more are offered
-        for c in ["QB 70000 16", "QB 1048576 16", "QB 1048579 5"] + (["QB 4194304 7"] if thorough else []):
-            capn, extra = int(c.split()[1]), int(c.split()[2])
+        for c in ["QB 70000 16", "QB 1048576 16", "QB 1048579 5", "QB u 1048700", "QB u 2100001"] + (["QB 4194304 7", "QB u 9000000"] if thorough else []):
+            capn, extra = (0 if c.split()[1] == "u" else int(c.split()[1])), int(c.split()[2])
             try:
                 o = common.run_harness("queue", [c], shards=1, env={"VERIF_CASE_TIMEOUT": "120"})[0]
             except common.CheckFailure as e:
                 o = "bad the process running the case died: " + str(e)[-300:].replace("\n", " ")
-            if o != "acc %d ref %d q %d" % (capn, extra, capn):
+            if c.split()[1] == "u":
+                if o != "acc %d ref 0 q %d" % (extra, extra):
+                    failures.append((len(c), c, o, "an unbounded queue with its worker busy was offered %d metrics: %s (an unbounded queue "
+                                     "accepts every metric)" % (extra, o)))
+            elif o != "acc %d ref %d q %d" % (capn, extra, capn):
                 failures.append((len(c), c, o, "a queue of capacity %d with its worker busy: %s (expected exactly %d accepted, %d refused)" % (
                     capn, o, capn, extra)))
     if prop in ("C08", "C16"):
